@@ -4882,3 +4882,143 @@ def durability_guard_rules(ctx):
         if hc and st:
             ctx.order(f, hc, st, 'the savepoint guard is evaluated before the durability is changed')
             ctx.held(f, hc, 'self.savepoint_state')
+
+
+def relocation_content_rules(ctx):
+    """Compaction moves pages, it never changes them: a relocated page starts as a byte copy of the page it
+    replaces, every relocated child / subtree pointer is written into the copy, and the multimap page walk
+    hands every page of the outer tree to the visitor."""
+    ctx.set_rule('C13.R7', 'a relocated page is a copy of the old one with the relocated child / subtree pointers written in')
+    n = 0
+    for pat, rec, is_multi in (('UntypedBtreeMut::relocate_helper', 'UntypedBtreeMut::relocate_helper', False), ('multimap_btree::relocate_subtrees', 'multimap_btree::relocate_subtrees', True)):
+        f = ctx.fn(pat)
+        if f is None:
+            continue
+        n += 1
+        s_ = core.sym(f)
+        cp = ctx.sites(f, 'copy_from_slice', exact=1)
+        for p in cp:
+            ctx.flows(f, p, 1, from_call=PA + '::get_page', what='the copy source is the old page')
+        # every mutation of the new page happens after the copy
+        muts = [cpoint(c) for c in f.calls if c.matches(('BranchMutator::write_child_page', 'LeafPageMut::replace_value'))]
+        ctx.check(len(muts) >= 1, 'floor|%s|pointer-writes' % f.path, 'the relocated child / subtree pointers are written', f, f.line)
+        ctx.order(f, cp, muts, 'the old bytes are copied before pointers are rewritten in the copy')
+        rcs = [c for c in f.calls if c.matches(rec) and not f.blocks[c.bb]['c']]
+        wc = [cpoint(c) for c in f.calls if c.matches('BranchMutator::write_child_page')]
+        ctx.check(len(rcs) == 1 and len(wc) == 1, 'floor|%s|recursion' % f.path, 'one recursion over the children and one pointer write', f, f.line)
+        if rcs and wc:
+            # after a child was relocated, its new (page, checksum) is written before the loop advances
+            e_none = set()
+            for bb in range(f.nb):
+                if f.blocks[bb]['t']['k'] != 'sw':
+                    continue
+                for si, fs in enumerate(core.edge_facts(f, bb)):
+                    if any(x.kind == 'call' and x.call is not None and x.call.bb == rcs[0].bb and x.vals and x.vals <= frozenset({'None', 'Err'}) for x in fs):
+                        e_none.add((bb, si))
+            nxt = [m for m in f.calls if m.declared and m.declared.split('::')[-1] == 'next' and 'Iterator' in m.declared]
+            r = core.reach(f, start=(rcs[0].bb, len(f.blocks[rcs[0].bb]['s'])), cut_blocks={p.bb for p in wc} | core.error_blocks(f), cut_edges=e_none)
+            bad = [m for m in nxt if m.bb in r['term']] or [rb for rb in f.ret_blocks() if rb in r['term']]
+            ctx._ob(not bad, ctx.sample('must-pass', f, rcs[0].line, 'a relocated child is written into the new branch page'))
+            if bad:
+                ctx.violate('must-pass|%s|child-pointer-not-written' % f.path, 'a child that was relocated can be left out of the new branch page (write_child_page skipped)', f, rcs[0].line)
+            for p in wc:
+                ctx.flows(f, p, 2, from_call=rec, what='the pointer written is the relocated child')
+                ctx.flows(f, p, 3, from_call=rec, what='the checksum written is the relocated child\'s')
+        if is_multi:
+            tr = ctx.sites(f, 'UntypedBtreeMut::relocate', exact=1)
+            rv = ctx.sites(f, 'LeafPageMut::replace_value', exact=1)
+            mk = ctx.sites(f, 'UntypedDynamicCollection::make_subtree_data', exact=1)
+            ctx.guarded(f, tr, [Guard(call='UntypedDynamicCollection::collection_type', vals={'SubtreeV2'})], 'subtrees are the SubtreeV2 collections')
+            for p in rv:
+                ctx.flows(f, p, 2, from_call='UntypedDynamicCollection::make_subtree_data', what='the value written back names the relocated subtree root')
+            for p in mk:
+                ctx.flows(f, p, 0, from_call='UntypedBtreeMut::get_root', what='the new subtree header is the relocated tree\'s root')
+            ctx.guarded_cmp(f, rv, [Guard(call='UntypedBtreeMut::get_root', cmp=True)], 'the leaf is rewritten when the subtree root changed')
+    ctx.check(n >= 2, 'floor|relocators', 'page relocators analysed: %d' % n)
+    f = ctx.fn('UntypedBtreeMut::relocate')
+    if f is not None:
+        store_rule(ctx, 'UntypedBtreeMut::relocate', 'root', ('call', 'UntypedBtreeMut::relocate_helper'), 'the relocated root replaces the tree\'s root', must=False)
+    ctx.set_rule('C06.R4b', '')
+    f = ctx.fn('UntypedMultiBtree::visit_all_pages')
+    if f is not None:
+        for cl in [c for c in f.closures if c.calls_to('multimap_btree::parse_subtree_roots')]:
+            vc = [cpoint(c, 'visitor call') for c in cl.calls if c.declared and c.declared.split('::')[-1] in ('call_mut', 'call_once', 'call') and c.resolved is None]
+            ctx.check(len(vc) == 1, 'floor|%s|visitor' % cl.path, 'the per-page closure of the multimap walk applies the visitor to the outer page', cl, cl.line)
+            ctx.must_pass(cl, vc, exits='success', what='every page of the outer multimap tree reaches the visitor')
+
+
+def _switch_edges_on_call(f, call_bb, want_true):
+    """edges of the switch on the bool returned by the call ending block call_bb on which it is true / false"""
+    s_ = core.sym(f)
+    out = set()
+    for bb in range(f.nb):
+        t = f.blocks[bb]['t']
+        if t['k'] != 'sw':
+            continue
+        term = s_.operand(t['o'])
+        neg = False
+        while term[0] == 'not':
+            term = term[1]
+            neg = not neg
+        if term != ('call', call_bb):
+            continue
+        for si, (tgt, lab) in enumerate(f.succ(bb)):
+            if ((lab != '0') != neg) == want_true:
+                out.add((bb, si))
+    return out
+
+
+
+def extract_state_rules(ctx):
+    """The draining iterator's latch protocol (C05: a half-applied extraction can never be committed)."""
+    ctx.set_rule('C05.R10', 'extract_if latches: a failed finalisation is remembered, an iteration error closes and latches, exhaustion closes')
+    BE = 'BtreeExtractIf'
+    f = ctx.fn(BE + '::close')
+    if f is not None:
+        rc = ctx.sites(f, 'RangeMut::close', exact=1)
+        cf = [p for p, st in _field_store_points(f, 'close_failed') if st[2]['k'] == 'use' and st[2]['o'][0] == 'k' and st[2]['o'][2] is True]
+        ctx.check(len(cf) == 1, 'floor|%s|close_failed' % f.path, 'close() records a failed finalisation', f, f.line)
+        if rc and cf:
+            e_ok = core.guard_edges(f, [Guard(place='result', vals={'Ok'}), ok('RangeMut::close')])
+            e_clean = core.guard_edges(f, [false_of('RangeMut::poisoned')])
+            # a failed close (Err) always sets the flag; so does a poisoned range
+            r = core.reach(f, start=(rc[0].bb, len(f.blocks[rc[0].bb]['s'])), cut_points={(p.bb, p.idx) for p in cf}, cut_edges=e_ok)
+            bad = [rb for rb in f.ret_blocks() if rb in r['term']]
+            ctx._ob(not bad, ctx.sample('must-pass', f, rc[0].line, 'an Err from RangeMut::close sets close_failed'))
+            if bad:
+                ctx.violate('must-pass|%s|close-failure-forgotten' % f.path, 'close() can return after RangeMut::close failed without recording close_failed (the transaction would not be poisoned)', f, rc[0].line)
+        st = [p for p, _ in _field_store_points(f, 'state')]
+        ctx.check(len(st) >= 1, 'floor|%s|state' % f.path, 'close() leaves the Running state', f, f.line)
+        if rc and st:
+            ctx.order(f, st, rc, 'the state leaves Running before the range is finalised (no second finalisation)')
+    f = ctx.fn(BE + '::latch_error')
+    if f is not None:
+        cl = ctx.sites(f, BE + '::close', exact=1)
+        st = [p for p, _ in _field_store_points(f, 'state')]
+        ctx.check(len(st) == 1, 'floor|%s|state' % f.path, 'latch_error sets the Errored state', f, f.line)
+        ctx.must_pass(f, cl, exits='any', what='an iteration error finalises both ends')
+        ctx.must_pass(f, st, exits='any', what='an iteration error is latched')
+    f = ctx.fn(BE + '::advance')
+    if f is not None:
+        le = ctx.sites(f, BE + '::latch_error', exact=1)
+        ie = [c for c in f.calls if c.matches('Result::is_err') and not f.blocks[c.bb]['c']]
+        ctx.check(len(ie) == 1, 'floor|%s|is_err' % f.path, 'advance() tests the step result', f, f.line)
+        if ie and le:
+            e_err = _switch_edges_on_call(f, ie[0].bb, True)
+            e_ok = _switch_edges_on_call(f, ie[0].bb, False)
+            r = core.reach(f, cut_edges=e_err)
+            ctx.check(bool(e_err) and le[0].bb not in r['term'], 'guard|%s|latch-on-err' % f.path, 'latch_error is reached only on the Err edge of the step result', f, le[0].line)
+            r = core.reach(f, start=(ie[0].bb, len(f.blocks[ie[0].bb]['s'])), cut_edges=e_ok, cut_blocks={p.bb for p in le})
+            bad = [rb for rb in f.ret_blocks() if rb in r['term']]
+            ctx._ob(not bad, ctx.sample('must-pass', f, ie[0].line, 'an error from the step function is always latched'))
+            if bad:
+                ctx.violate('must-pass|%s|error-not-latched' % f.path, 'advance() can return an error of the step function without latching it', f, ie[0].line)
+    for pat, step in ((BE + '::next_inner', 'RangeMut::next'), (BE + '::next_back_inner', 'RangeMut::prev')):
+        f = ctx.fn(pat)
+        if f is None:
+            continue
+        cl = ctx.sites(f, BE + '::close', exact=1)
+        # exhaustion (peek returned None) leads to close() before Ok(None)
+        ctx.must_pass(f, cl + [cpoint(c) for c in f.calls if c.matches(('RangeMut::remove_next', 'RangeMut::remove_prev'))], exits='success', what='an exhausted scan is closed before it reports the end')
+        stp = ctx.sites(f, step, exact=1)
+        ctx.guarded(f, stp, [Guard(place='matched', vals={'false'})], 'the cursor steps over an entry only when the predicate rejected it')
